@@ -587,6 +587,38 @@ def string_width_rule(prog, res):
     res.minimum('write calls', nw, 25)
 
 
+def cstring_cut_rule(prog, res, rule='string-width'):
+    """c3d::readString hands back a std::string built from a C string: it ends at the first NUL byte of what was read.  Taking
+    `s.c_str() + offset` / `s.data() + offset` of such a string and reading a count of bytes from there trusts the requested
+    length, not the length the string really has"""
+    from paths import local_init
+    n = 0
+    for f in prog.repo_funcs():
+        R = None
+        for m in f.nodes:
+            if m['k'] != 'BinaryOperator' or m.get('op') != '+':
+                continue
+            l = f.nodes[f.strip(m['ch'][0], 'all')]
+            if l['k'] != 'CXXMemberCallExpr' or l['callee']['name'] not in ('c_str', 'data') or l['callee'].get('classq') != 'std::basic_string' or l.get('obj') is None:
+                continue
+            o = f.nodes[f.strip(l['obj'], 'all')]
+            if o['k'] != 'DeclRefExpr' or o['decl'].get('dk') != 'local':
+                continue
+            ini = local_init(f, o['decl']['id'])
+            if ini is None or not any(f.nodes[x]['k'] == 'CXXMemberCallExpr' and f.nodes[x]['callee']['name'] == 'readString' for x in [ini] + list(f.descendants(ini))):
+                continue
+            n += 1
+            R = R or Renderer(f)
+            import indexsites as _IS
+            size = 'local:%s.size' % o['decl']['name']
+            if any(size in (a_, b_) for a_, op_, b_, _x in _IS.facts_at(f, R, m['id'])):
+                res.ok(rule, 'offset into the string read by readString', f.loc(m['id']), 'the offset is taken under a test of the size of the string', function=f.sig, expr='cstr+off@%d' % m['id'])
+            else:
+                res.viol(rule, 'offset into the string read by readString', f.loc(m['id']), '`%s` addresses bytes of a string returned by readString(), which ends at the first NUL byte it read: when the block holds a zero '
+                         'byte the string is shorter than the offset / count used here, and nothing compares them with its size' % R.render(m['id'])[:80], function=f.sig, expr='cstr+off', sure=True)
+    res.info['offsets_into_read_strings'] = n
+
+
 def run(prog, tier):
     res = Result('C13', tier,
                  'Necessary structural conditions of memory safety, each decided over all functions: new/delete form pairing and '
@@ -604,6 +636,7 @@ def run(prog, tier):
     string_width_rule(prog, res)
     dangling_rule(prog, res)
     stale_reference_rule(prog, res)
+    cstring_cut_rule(prog, res)
     copy_bound_rule(prog, res)
     raw_owner_rule(prog, res)
     reloc_stable_rule(prog, res)
